@@ -46,7 +46,7 @@ DESC = {
     "eA0": ("eqv", "A", 0), "eA1": ("eqv", "A", 1), "L1": ("lit", "1", 0), "LT": ("lit", "T", 0),
 }
 # probe names per scope: mirrors ProbeNames in Door.tla
-PROBE_NAMES = {"repr": ["A"], "reprT": ["A"], "conf": ["A"], "reprD": ["D"], "fail": ["A", "U"],
+PROBE_NAMES = {"repr": ["A"], "reprT": ["A"], "misc": ["A"], "conf": [], "reprD": ["D"], "fail": ["A", "U"],
                "all": ["A", "D", "U"], "id": [], "idT": [], "idC": []}
 
 # themes: what "a name bound to an object, later rebound to a distinct object with the same repr" is
@@ -70,8 +70,17 @@ from beartype import beartype, BeartypeConf
 from beartype.door import TypeHint, die_if_unbearable, is_bearable, is_subhint
 from beartype.vale import Is
 def _mk_validator(k):
-    return Annotated[int, Is[lambda x: x % 2 == k]]
+    return Annotated[str, Is[lambda x: len(x) % 2 == k]]
+class Base0: pass
+class Base1: pass
 CONF = {'c0': BeartypeConf(), 'c1': BeartypeConf(is_pep484_tower=True)}
+# the door resolves a stringified hint against the module of its caller: the calls are made from this module
+def _bear(obj, hint, conf):
+    return is_bearable(obj, hint, conf=conf)
+def _die(obj, hint, conf):
+    return die_if_unbearable(obj, hint, conf=conf)
+def _sub(a, b):
+    return is_subhint(a, b)
 @beartype
 class K9Clear: pass
 """
@@ -84,7 +93,7 @@ def class_def(theme, n, g):
     if theme == "class" or n != "A":
         return f"class {n}: pass"
     if theme == "newtype":
-        return f"{n} = NewType('{n}', {'int' if g == 0 else 'str'})"
+        return f"{n} = NewType('{n}', Base{g})"
     if theme == "enum":
         return f"class {n}(enum.Enum):\n    X = 1"
     if theme == "validator":
@@ -97,11 +106,11 @@ def inst_expr(theme, n, g):
     if theme == "class" or n != "A":
         return f"{n}__{g}()"
     if theme == "newtype":
-        return "7" if g == 0 else "'x'"
+        return f"Base{g}()"
     if theme == "enum":
         return f"{n}__{g}.X"
     if theme == "validator":
-        return "4" if g == 0 else "5"
+        return "'ab'" if g == 0 else "'abc'"
     raise KeyError(theme)
 
 
@@ -236,6 +245,7 @@ class _World:
         for n in ("A", "B", "D"):
             self.define(n)
         self.funcs = []
+        self.junk_kind = "plain"
         self.used = []          # hashable hint expressions used in id-keyed queries (amplifier material)
         self.nfill = 0
 
@@ -341,12 +351,23 @@ class _World:
         self.junk = []
         if not targets:
             return
-        cls = self.g.setdefault("_C14Junk", type("_C14Junk", (), {}))
+        # which same-size objects: a plain class, or the type of a wrapper itself (then also the inline attribute
+        # values are allocated the way a wrapper's are); which one works depends on what the query allocates first
+        kind = self.junk_kind
+        cls = self.g.get("_C14Junk_" + kind)
+        if cls is None:
+            if kind == "plain":
+                cls = type("_C14Junk", (), {})
+            elif kind == "cls":
+                cls = type(self.g["TypeHint"](int))
+            else:
+                cls = type(self.g["TypeHint"](self.ev("Annotated[int, []]")))
+            self.g["_C14Junk_" + kind] = cls
         found = []
         gc.disable()
         try:
             for _ in range(budget):
-                o = cls()
+                o = object.__new__(cls)
                 if id(o) in targets:
                     found.append(o)
                     if len(found) >= n:
@@ -374,8 +395,8 @@ class _World:
             h = self.hint(op["d"])
             conf = g["CONF"][op["conf"]]
             if k == "bearable":
-                return self.vector(lambda o: g["is_bearable"](o, h, conf=conf), "BeartypeDoorHintViolation")
-            return self.vector(lambda o: g["die_if_unbearable"](o, h, conf=conf), "BeartypeDoorHintViolation")
+                return self.vector(lambda o: g["_bear"](o, h, conf), "BeartypeDoorHintViolation")
+            return self.vector(lambda o: g["_die"](o, h, conf), "BeartypeDoorHintViolation")
         if k == "decorate":
             name = f"f{len(self.funcs) + 1}"
             src = (f"@beartype(conf=CONF[{op['conf']!r}])\ndef {name}(x: {hint_expr(op['d'], self.theme, self.container)}):\n"
@@ -396,7 +417,7 @@ class _World:
                 return {"_": _category(ex)}
             if amp:
                 self.steer(3)
-            return self.scalar(lambda: g["is_subhint"](ha, hb))
+            return self.scalar(lambda: g["_sub"](ha, hb))
         if k == "theq":
             self.note_used(op["a"], op["b"])
             TypeHint = g["TypeHint"]
@@ -424,17 +445,23 @@ class _World:
 def run_history(job):
     """job = {ops, theme, container, probes, amp}; returns [{ans, reuse}] per op."""
     w = _World(job.get("theme", "class"), job.get("container", "list"), job["probes"], spy=job.get("spy", True))
+    w.junk_kind = job.get("junk", "plain")
     out = []
     ops = job["ops"]
+    earlier = []
     for i, op in enumerate(ops):
         if w.spy:
             w.spy.opidx = i
         ans = w.do(op, job.get("amp", 0))
         w.junk = []
-        out.append({"ans": ans, "reuse": w.spy.take() if w.spy else []})
+        ev = w.spy.take() if w.spy else []
+        # "earlier": the last reuse seen before this step (also among the provoking operations): an answer can be
+        # wrong because an EARLIER stale hit was stored under the current objects' own key
+        out.append({"ans": ans, "reuse": ev, "earlier": earlier[-1:]})
+        earlier += ev
         w.provoke(op, ops[i + 1] if i + 1 < len(ops) else None, job.get("amp", 0))
         if w.spy:
-            w.spy.take()            # reuse among the provoking operations themselves is not attributed to a step
+            earlier += w.spy.take()     # reuse among the provoking operations is not attributed to a step
     return out
 
 
@@ -563,21 +590,71 @@ def _cfg(d, legacy, scope, maxops, invs):
                              "\n".join("INVARIANT " + i for i in invs)))
 
 
-def _coverage(out):
-    """action -> (distinct, total); tolerant of the '(a b c d)' suffix TLC prints for some actions."""
-    cov = {}
-    for m in re.finditer(r"^<([A-Za-z_][A-Za-z0-9_]*) line \d+, col \d+ to line \d+, col \d+ of module Door(?: \([\d ]+\))?>: (\d+):(\d+)",
-                         out, re.M):
-        d, t = int(m.group(2)), int(m.group(3))
-        o = cov.get(m.group(1), (0, 0))
-        cov[m.group(1)] = (o[0] + d, o[1] + t)
-    return cov
+CACHE = os.path.join(os.path.dirname(os.path.dirname(os.path.dirname(os.path.abspath(__file__)))), ".scratch", "c14")
 
 
 def _tlc(args):
+    """one TLC run.  What TLC computes from Door.tla and a configuration does not depend on the implementation, so
+    results (and dumped graphs) are kept under /verif/.scratch keyed by the hash of specification + configuration +
+    options, like the Semantics rows; they are rebuilt whenever absent or when the specification changes."""
+    import pickle
+    import shutil
     from verifkit import tlc
     d, legacy, scope, maxops, invs, kw = args
-    return tlc.run_tlc("Door.tla", _cfg(d, legacy, scope, maxops, invs), **kw)
+    cfg = _cfg(d, legacy, scope, maxops, invs)
+    spec = open(os.path.join(tlc.SPEC_DIR, "Door.tla")).read()
+    kw = dict(kw)
+    dump = kw.pop("dump_dot", None)
+    key = hashlib.sha1(json.dumps([spec, open(cfg).read(), sorted(kw.items()), bool(dump), "v1"]).encode()).hexdigest()[:20]
+    cdir = os.path.join(CACHE, key)
+    pk = os.path.join(cdir, "result.pkl")
+    if os.environ.get("VERIF_C14_NOCACHE") != "1" and os.path.exists(pk):
+        try:
+            res = pickle.load(open(pk, "rb"))
+            if dump:
+                shutil.copyfile(os.path.join(cdir, "graph.dot"), dump + ".dot")
+            res.cmd = "(cached) " + res.cmd
+            return res
+        except Exception:  # noqa  (a damaged cache entry is simply rebuilt)
+            pass
+    res = tlc.run_tlc("Door.tla", cfg, dump_dot=dump, keep_output=False, **kw)
+    try:
+        tmp = cdir + f".tmp{os.getpid()}"
+        os.makedirs(tmp, exist_ok=True)
+        res.output = res.output[-3000:]
+        pickle.dump(res, open(os.path.join(tmp, "result.pkl"), "wb"))
+        if dump:
+            shutil.copyfile(dump + ".dot", os.path.join(tmp, "graph.dot"))
+        if os.path.exists(cdir):
+            shutil.rmtree(tmp, ignore_errors=True)
+        else:
+            os.rename(tmp, cdir)
+    except OSError:
+        pass
+    return res
+
+
+def _simulate(cfg, num, depth, seed):
+    import pickle
+    from verifkit import tlc
+    spec = open(os.path.join(tlc.SPEC_DIR, "Door.tla")).read()
+    key = hashlib.sha1(json.dumps([spec, open(cfg).read(), num, depth, seed, "sim-v1"]).encode()).hexdigest()[:20]
+    pk = os.path.join(CACHE, key + ".sim.pkl")
+    if os.environ.get("VERIF_C14_NOCACHE") != "1" and os.path.exists(pk):
+        try:
+            return pickle.load(open(pk, "rb"))
+        except Exception:  # noqa
+            pass
+    res, behs = tlc.simulate("Door.tla", cfg, num=num, depth=depth, seed=seed)
+    res.output = res.output[-2000:]
+    try:
+        os.makedirs(CACHE, exist_ok=True)
+        tmp = pk + f".tmp{os.getpid()}"
+        pickle.dump((res, behs), open(tmp, "wb"))
+        os.replace(tmp, pk)
+    except OSError:
+        pass
+    return res, behs
 
 
 def _ans_model(op, rec, gen, scope):
@@ -640,20 +717,30 @@ class History:
         # the model's function numbering counts successful decorations: identical in the child
         self.needs_reuse = [i for i, l in enumerate(self.last) if l["stale"]]
 
-    def job(self, theme="class", container="list", amp=0):
-        return {"ops": self.ops, "theme": theme, "container": container, "probes": PROBE_NAMES[self.scope], "amp": amp}
+    def job(self, theme="class", container="list", amp=0, junk="plain"):
+        return {"ops": self.ops, "theme": theme, "container": container, "probes": PROBE_NAMES[self.scope], "amp": amp,
+                "junk": junk}
 
 
 def _paths_from_graph(g, max_paths, rnd):
+    """paths from Init covering every edge; the quick tier replays a seeded sample of them in which the paths on
+    which the faithful model deviates (foreign de-duplication, stale id hit, answer /= Fresh) come first."""
     from verifkit import tlc
     paths = tlc.edge_cover_paths(g, max_len=64)
     total = len(paths)
     if max_paths and len(paths) > max_paths:
-        # keep the longest ones (they contain the short ones as prefixes) plus a seeded sample
-        paths.sort(key=len, reverse=True)
-        head = paths[:max_paths // 2]
-        tail = rnd.sample(paths[max_paths // 2:], max_paths - len(head))
-        paths = head + tail
+        def deviates(p):
+            for (_s, _a, t) in p:
+                l = g.nodes[t]["last"]
+                if l["swap"] or l["stale"] or (l["judged"] and l["ret"] != l["fresh"]):
+                    return True
+            return False
+        dev = [p for p in paths if deviates(p)]
+        rest = [p for p in paths if not deviates(p)]
+        rnd.shuffle(dev)
+        rnd.shuffle(rest)
+        dev = dev[:max_paths // 2]
+        paths = dev + rest[:max_paths - len(dev)]
     return paths, total
 
 
@@ -709,7 +796,7 @@ class Judge:
     def __init__(self, rep, oracle):
         self.rep, self.oracle = rep, oracle
         self.stats = {"histories": 0, "queries": 0, "hit_queries": 0, "reuse_detected": 0, "stale_steps_model": 0,
-                      "stale_steps_exercised": 0, "not_exercised": 0, "unjudged": 0, "violating_answers": 0}
+                      "stale_steps_exercised": 0, "not_exercised": 0, "unjudged": 0, "violating_answers": 0, "model_deviation_not_observed": 0}
 
     def fresh_jobs(self, h, theme, container):
         jobs = []
@@ -745,10 +832,11 @@ class Judge:
                     rep.spec_drift(f"Fresh(q) of Door.tla differs from the fresh interpreter for {_short(op)} "
                                    f"(theme {theme}/{container}): spec {fresh_spec} real {fresh_real}")
             if real != fresh_real:
-                table, hclass = _history_class(h, k, theme, container, res["reuse"])
+                events = res["reuse"] or (res.get("earlier", []) if op["op"] in ("subhint", "theq", "leheld") else [])
+                table, hclass = _history_class(h, k, theme, container, events)
                 key = {"table": table, "history": hclass}
                 self.stats["violating_answers"] += 1
-                job = h.job(theme, container, amp)
+                job = h.job(theme, container, amp[0], amp[1])
                 diff = {p: (real.get(p), fresh_real.get(p)) for p in sorted(set(real) | set(fresh_real))
                         if real.get(p) != fresh_real.get(p)}
                 rep.violation(key,
@@ -758,9 +846,10 @@ class Judge:
                               {"job": {**job, "ops": h.ops[:k + 1]}, "step": k, "real": real, "fresh_interpreter": fresh_real,
                                "fresh_spec": fresh_spec, "faithful_model": ret_spec, "reuse_events": res["reuse"],
                                "origin": h.origin})
-            elif final and real != ret_spec and not last["stale"]:
-                # the unchanged tree follows the faithful model; a repaired tree follows Fresh: both are fine
-                pass
+            elif final and ret_spec != fresh_spec:
+                # the 0.23.0 disciplines deviate here but the tree answered as a fresh interpreter does: the reuse did
+                # not happen in this attempt, or the tree no longer has that discipline (both fine; informational)
+                self.stats["model_deviation_not_observed"] += 1
         return exercised
 
 
@@ -801,7 +890,7 @@ def run(rep, tier, seed):
         # ------------------------------------------------------------------ R1
         D = 4 if quick else 5
         runs = []
-        for scope, mo in (("repr", D), ("reprT", D + 1), ("reprD", D + 1), ("idT", D - 1), ("idC", D), ("fail", D), ("conf", D - 1)):
+        for scope, mo in (("repr", D), ("reprT", D + 1), ("reprD", D + 1), ("idT", D - 1), ("idC", D), ("fail", D), ("conf", D), ("misc", D - 1)):
             runs.append((f"intended {scope}", (d, [], scope, mo, PROPS, {"workers": 4}), True, None))
         runs += [
             ("faithful repr (F4a)", (d, FAITHFUL, "repr", D, ["ReturnFresh"], {"workers": 2}), False, ["ReturnFresh"]),
@@ -811,14 +900,14 @@ def run(rep, tier, seed):
             ("faithful idC HitIsFirstTime", (d, FAITHFUL, "idC", D, ["HitIsFirstTime"], {"workers": 2}), False, ["HitIsFirstTime"]),
             ("faithful reprD holds", (d, ["repr_dedup"], "reprD", D, PROPS, {"workers": 2}), True, None),
             ("mutant clear_forgets_dedup", (d, ["repr_dedup", "clear_forgets_dedup"], "reprD", D, ["ReturnFresh"], {"workers": 2}), False, None),
-            ("mutant tester_noconf", (d, ["tester_noconf"], "conf", D - 1, ["ReturnFresh"], {"workers": 2}), False, None),
+            ("mutant tester_noconf", (d, ["tester_noconf"], "conf", D, ["ReturnFresh"], {"workers": 2}), False, None),
             ("mutant cache_uncacheable", (d, ["cache_uncacheable"], "fail", D, ["ReturnFresh"], {"workers": 2}), False, None),
             ("mutant cache_fwd_exc", (d, ["cache_uncacheable", "cache_fwd_exc"], "fail", D, ["NoStickyFailure"], {"workers": 2}), False,
              ["NoStickyFailure"]),
         ]
         # graphs of the faithful model for the edge replay (no property: the whole graph is wanted)
         G = 3 if quick else 4
-        graph_scopes = [("repr", G), ("reprT", G + 1), ("reprD", G), ("idT", G), ("idC", G), ("fail", G), ("conf", G)]
+        graph_scopes = [("repr", G), ("reprT", G + 1), ("reprD", G), ("idT", G), ("idC", G), ("fail", G), ("conf", G), ("misc", G)]
         for scope, mo in graph_scopes:
             runs.append((f"graph {scope}", (d, FAITHFUL, scope, mo, ["TypeOK"],
                                             {"workers": 2, "dump_dot": os.path.join(d, f"g_{scope}")}), True, None))
@@ -835,7 +924,7 @@ def run(rep, tier, seed):
         # ------------------------------------------------------------------ R2: histories
         hists = list(targets)
         taken, ante = {}, {}
-        per_scope = 140 if quick else 0
+        per_scope = 80 if quick else 1200
         for scope, mo in graph_scopes:
             g = tlc.parse_dot(os.path.join(d, f"g_{scope}.dot"))
             paths, total = _paths_from_graph(g, per_scope, rnd)
@@ -869,9 +958,9 @@ def run(rep, tier, seed):
             rep.machinery(f"vacuous TLC runs: antecedents never true {missing}")
         rep.cov["actions_taken"] = taken
         rep.cov["antecedents_true"] = ante
-        nsim, dsim = (60, 9) if quick else (600, 14)
+        nsim, dsim = (40, 9) if quick else (400, 14)
         cfg = _cfg(d, FAITHFUL, "all", dsim, ["TypeOK"])
-        sres, behs = tlc.simulate("Door.tla", cfg, num=nsim, depth=dsim + 1, seed=seed + 1)
+        sres, behs = _simulate(cfg, nsim, dsim + 1, seed + 1)
         rep.tlc(sres, "simulate faithful all")
         for b in behs:
             steps = [(_op_of(a), st) for a, st in b[1:]]
@@ -882,24 +971,30 @@ def run(rep, tier, seed):
     rep.cov["exhaustive"] = not quick
 
 
-def _variants(h, quick):
-    """(theme, container) pairs under which a history is concretised."""
-    v = [("class", "list")]
-    if h.scope == "reprT":
-        v += [("newtype", "list"), ("enum", "list"), ("validator", "list"), ("class", "tuple"), ("class", "dict"), ("class", "set"),
-              ("newtype", "tuple"), ("validator", "dict")]
-    return v
+VARIANTS = [("class", "list"), ("newtype", "list"), ("enum", "list"), ("validator", "list"), ("class", "tuple"),
+            ("class", "dict"), ("class", "set"), ("newtype", "tuple"), ("validator", "dict")]
 
 
-AMPS = [0, 16, 48, 96]
+def _variants(h, quick, idx):
+    """(theme, container) pairs under which a history is concretised: scope reprT is the part of the model that
+    every theme of the catalogue instantiates (distinct objects that Door.tla calls repr-equal and ==-unequal)."""
+    if h.scope != "reprT":
+        return [("class", "list")]
+    if h.origin.startswith("TLC counter-example") or not quick:
+        return VARIANTS
+    return [VARIANTS[idx % len(VARIANTS)]]
+
+
+# provocation schedule: (how many extra wrappers are made and freed, which objects probe the allocator)
+AMPS = [(0, "plain"), (16, "plain"), (16, "cls"), (16, "ann"), (64, "plain"), (64, "cls")]
 
 
 def _replay_all(rep, pool, hists, quick, rnd):
     oracle = FreshOracle(rep)
     judge = Judge(rep, oracle)
     items = []          # (history, theme, container)
-    for h in hists:
-        for theme, cont in _variants(h, quick):
+    for idx, h in enumerate(hists):
+        for theme, cont in _variants(h, quick, idx):
             items.append((h, theme, cont))
     # fresh-interpreter answers for every judged query (cached by the objects the query needs)
     fj = []
@@ -911,15 +1006,15 @@ def _replay_all(rep, pool, hists, quick, rnd):
     pending = list(range(len(items)))
     done_ex = {i: set() for i in pending}
     t0 = time.time()
-    for attempt, amp in enumerate(AMPS):
+    for attempt, (amp, junk) in enumerate(AMPS):
         if not pending:
             break
-        jobs = [items[i][0].job(items[i][1], items[i][2], amp) for i in pending]
+        jobs = [items[i][0].job(items[i][1], items[i][2], amp, junk) for i in pending]
         results = pool.map(run_history, jobs)
         nxt = []
         for i, res in zip(pending, results):
             h, theme, cont = items[i]
-            ex = judge.judge(h, theme, cont, amp, res, final=(attempt == 0))
+            ex = judge.judge(h, theme, cont, (amp, junk), res, final=(attempt == 0))
             done_ex[i] |= ex
             if any(k not in done_ex[i] for k in h.needs_reuse):
                 nxt.append(i)
@@ -961,9 +1056,10 @@ def replay(rep, path):
     oracle.resolve([fj])
     fresh = oracle.get(fj)
     print("fresh interpreter:", fresh)
-    for amp in AMPS:
-        res = fork_map(run_history, [{**job, "amp": amp}])[0]
-        print(f"after the history (provocation {amp}):", res[-1]["ans"], "reuse detected:", bool(res[-1]["reuse"]))
+    tries = [(job.get("amp", 0), job.get("junk", "plain"))] + [a for a in AMPS if a != (job.get("amp", 0), job.get("junk", "plain"))]
+    for amp, junk in tries:
+        res = fork_map(run_history, [{**job, "amp": amp, "junk": junk}])[0]
+        print(f"after the history (provocation {amp}/{junk}):", res[-1]["ans"], "reuse detected:", bool(res[-1]["reuse"]))
         if res[-1]["ans"] != fresh:
             rep.violations.append({"key": json.load(open(path))["key"], "what": "reproduced", "replay": path})
             print("REPRODUCED: the answer after the history differs from the fresh interpreter")
